@@ -60,6 +60,10 @@ type env struct {
 	cur   *plan
 	rev2  bool
 	class string
+	// queue / gate: plans for commands the client has pipelined; the backend answers the first of
+	// them only once all of them have been sent (gate closed), so that all are in flight together
+	queue []*plan
+	gate  chan struct{}
 	// count: the number of messages the wire has told the client the selected mailbox holds (the
 	// last EXISTS minus the EXPUNGE responses since); it decides which message "*" addresses
 	count uint32
@@ -136,6 +140,12 @@ func (e *env) handler(s *kit.Sess, c *kit.Call, w *kit.Writers) kit.Result {
 	case "Select":
 		return kit.Result{Select: p.selectD}
 	case "Search":
+		if e.gate != nil {
+			<-e.gate
+			q := e.queue[0]
+			e.queue = e.queue[1:]
+			return kit.Result{Search: q.search}
+		}
 		return kit.Result{Search: p.search}
 	case "Append":
 		return kit.Result{Append: p.appendD}
@@ -1142,6 +1152,49 @@ func (e *env) expungePlan(k int) []uint32 {
 	return out
 }
 
+// opPipelined: several commands of one kind in flight at once, the oldest completing first; each
+// must receive the data the backend wrote for it (untagged SEARCH data names no command).
+func (e *env) opPipelined() {
+	r := e.rng
+	n := 3 + r.Intn(3)
+	var plans []*plan
+	var want [][]uint32
+	for i := 0; i < n; i++ {
+		var seq imap.SeqSet
+		var nums []uint32
+		for k := 0; k < 1+r.Intn(4); k++ {
+			v := uint32(1000*(i+1) + k*2)
+			seq.AddNum(v)
+			nums = append(nums, v)
+		}
+		plans = append(plans, &plan{search: &imap.SearchData{All: seq, Min: nums[0], Max: nums[len(nums)-1], Count: uint32(len(nums))}})
+		want = append(want, nums)
+	}
+	e.cur = &plan{}
+	e.queue, e.gate = plans, make(chan struct{})
+	var cmds []*imapclient.SearchCommand
+	for i := 0; i < n; i++ {
+		cmds = append(cmds, e.c.Search(&imap.SearchCriteria{Larger: int64(i + 1)}, nil))
+	}
+	close(e.gate)
+	for i, cmd := range cmds {
+		var got *imap.SearchData
+		op := fmt.Sprintf("SEARCH pipelined #%d of %d", i+1, n)
+		if !e.run(op, func() error { var err error; got, err = cmd.Wait(); return err }) {
+			break
+		}
+		var gotNums []uint32
+		if got.All != nil {
+			gotNums = got.AllSeqNums()
+		}
+		if fmt.Sprint(gotNums) != fmt.Sprint(want[i]) {
+			e.viol("data-differs", "SEARCH-pipelined", fmt.Sprintf("command #%d of %d pipelined searches: the backend wrote %v for it, it received %v", i+1, n, want[i], gotNums))
+		}
+	}
+	e.queue, e.gate = nil, nil
+	e.w.Metric("pipelined_search_groups", 1)
+}
+
 func (e *env) opNamespace() {
 	r := e.rng
 	descr := func() []imap.NamespaceDescriptor {
@@ -1232,8 +1285,10 @@ func runSession(w *hx.W, rng *rand.Rand, caps imap.CapSet, capsName string, enab
 		case 8:
 			e.opAppendCopyMove()
 		case 9:
-			if caps.Has(imap.CapNamespace) {
+			if caps.Has(imap.CapNamespace) && rng.Intn(2) == 0 {
 				e.opNamespace()
+			} else {
+				e.opPipelined()
 			}
 		}
 		w.Case(uint64(rng.Int63()))
